@@ -12,7 +12,7 @@ monitor:        per evaluated point feasibility (registered tolerance; zero for 
 import random
 
 from .. import runcheck, monitors, problems
-from ..common import unhex, hexd, run_model
+from ..common import unhex, hexd, run_model, build_harness, sh
 
 ALGS = ["NLOPT_LD_SLSQP", "NLOPT_GN_ISRES", "NLOPT_GN_ORIG_DIRECT", "NLOPT_GN_ORIG_DIRECT_L"]
 STOPVAL_ALGS = ALGS + ["NLOPT_LN_COBYLA"]
@@ -177,7 +177,7 @@ def incumbent_correspondence(ctx, batch):
 
 
 def run(ctx):
-    bdir, A = runcheck.setup(ctx, ["C06"])
+    bdir, A = runcheck.setup(ctx, ["C06", "C06Isres"])
     if bdir:
         rng = random.Random(ctx.seed * 71 + 6)
         ps = []
@@ -248,6 +248,17 @@ def run(ctx):
             incumbent_correspondence(ctx, batch)
         except Exception as e:
             ctx.broke("incumbent model driver", repr(e))
+        # the model-level counterexample of the ISRES rule (penalty underflow), replayed on the library
+        exe, ok, log = build_harness("wit_isres", bdir)
+        if ok:
+            rc, out = sh([exe])
+            ctx.cov["isres_underflow_witness"] = out.strip()[-200:]
+            if rc == 1:
+                ctx.violation({"alg": "NLOPT_GN_ISRES", "cause": "squared violation underflows to 0: infeasible incumbent kept"},
+                              "NLOPT_GN_ISRES returned an infeasible point although feasible points were evaluated: " + out.strip()[-160:],
+                              {"stream": "witness", "program": "harness/wit_isres.c", "lean_witness": "Nlopt.C06Isres.isres_best_feasible_full_false"})
+        else:
+            ctx.broke("harness wit_isres.c does not build", log)
         nfe = sum(1 for _, r, ri in batch if ri is not None and ri.ret is not None and ri.ret > 0)
         ctx.cov["successful_constrained_runs"] = nfe
         ctx.sample({"spec": batch[0][1].spec})
